@@ -222,6 +222,7 @@ func (c02) Eval(c *Chooser, env *Env) *Outcome {
 		o.probe("variant_run_failed:"+v.Class, 1)
 		return o
 	}
+	o.Digest = DigestOf(r0.Stdout, r0.Exit, r0.Errs, r1.Stdout, r1.Exit, r1.Errs)
 	if what, kinds := firstDiff(cmpOf(r0), cmpOf(r1)); what != "" {
 		o.V = &Violation{Oracle: "same-output", Class: kinds,
 			Message: fmt.Sprintf("the same files, configuration and options produced different results under %s.\n  %s", desc, what),
